@@ -61,7 +61,13 @@ def execute(c):
     s1, s2 = lib.snapshot(t1), lib.snapshot(t2)
     if lib.vid(c) % 5 == 2:
         lib.scribble(cat_tree(t1, t2, c["i"], c["j"], translate=bool(c["tr"])))
-    r = cat_tree(t1, t2, c["i"], c["j"], translate=bool(c["tr"]))
+    if lib.vid(c) % 7 == 3:
+        import warnings as _w
+        with _w.catch_warnings():
+            _w.simplefilter("ignore")
+            r = cat_tree(t1, t2, c["i"], c["j"], no_move=not bool(c["tr"]))       # the older spelling of the same option (still accepted)
+    else:
+        r = cat_tree(t1, t2, c["i"], c["j"], translate=bool(c["tr"]))
     ident = [[int(v) // 1000, int(v) % 1000] for v in r.ndata["tag"]]
 
     big = max(abs(o) for o in off) + max(abs(o) for o in far) + 100 * unit
